@@ -6,6 +6,9 @@ it -- but it never accepts a connection again.
 
 Run:  cd /tmp/wa_C05 && PYTHONPATH=/tmp/wa_C05 /venv/bin/python _finding/2/demo.py
 """
+import os as _os
+_TREE_UNDER_TEST = _os.environ.get("GVERIF_REPO") or _os.getcwd()   # the checkout under test (was the auditing agent's scratch worktree)
+
 
 import os
 import shutil
@@ -18,7 +21,7 @@ import sys
 import tempfile
 import time
 
-ROOT = "/tmp/wa_C05"
+ROOT = _TREE_UNDER_TEST
 sys.path.insert(0, ROOT)
 
 # throw-away self-signed certificate (CN=localhost), only used by this demo
